@@ -387,7 +387,26 @@ def run(ctx, report):
                                 printed = set(Evaluator(dict(D.base)).ev(t2.comparators[0]))
                             except NotConst:
                                 pass
-                cands = [c for c in D.variants if operand_count(X, c) in lens and (printed is None or printed & printed_names(X, c))]
+                cands = [c for c in D.variants if (operand_count(X, c) in lens or set(lens) & string_operand_counts(X, strm, c)) and (printed is None or printed & printed_names(X, c))]
+                # the remaining conjuncts of the guards that depend on the row only (self.m.name / self.m.modifs)
+                def row_guard_holds(c):
+                    m_ = Obj('m')
+                    m_.name, m_.modifs = c.name, dict(c.modifs)
+                    me_ = Obj('self')
+                    me_.m = m_
+                    env_ = dict(D.base)
+                    env_['self'] = me_
+                    for t, pol in conds:
+                        for t2, p2 in conjuncts(t, pol):
+                            if 'self.m.' not in u(t2) or 'args' in u(t2) or 'mnemo' in u(t2):
+                                continue
+                            try:
+                                if bool(Evaluator(env_).ev(t2)) != p2:
+                                    return False
+                            except NotConst:
+                                pass
+                    return True
+                cands = [c for c in cands if row_guard_holds(c)]
                 if not cands:
                     R2.ok(inst, sample='args[%d] under len(args) == %s: no row with that many operands reaches the branch (dead code)' % (k, lens))
                     R2.note('__str__: the branch guarded by len(args) == %s that reads args[%d] is dead code (no row of %s decodes to %s operands)' % (lens, k, sorted(printed or [])[:4], lens))
@@ -623,6 +642,47 @@ def operand_count(X, c):
             continue
         n += 1
     return n
+
+
+def string_operand_counts(X, strm, c):
+    """String instructions get their operands in special_opcodes (2 for movs/cmps, 1 for lods/stos/scas); __str__ elides them under a test.
+    The counts that can reach the rest of __str__: evaluated from the elision tests with a segment override on the source."""
+    E, afs = X.env, X.afs
+    fam2, fam1 = set(E.get('rep_mov_cmp', [])), set(E.get('rep_sto_lod_sca', []))
+    if c.modifs.get(E['mmx']) or c.name not in fam2 | fam1:
+        return set()
+    n = 2 if c.name in fam2 else 1
+    es, ds, fs = (afs.reg_sg.index(r) for r in ('es', 'ds', 'fs'))
+    edi, esi = afs.reg_dict[afs.r_edi], afs.reg_dict[afs.r_esi]
+    out = set()
+    for src_seg in (ds, fs):
+        if n == 2:
+            args = [{edi: 1, afs.ad: True, afs.size: afs.u32, afs.segm: es}, {esi: 1, afs.ad: True, afs.size: afs.u32, afs.segm: src_seg}]
+        elif c.name.startswith('lods'):
+            args = [{esi: 1, afs.ad: True, afs.size: afs.u32, afs.segm: src_seg}]
+        else:
+            args = [{edi: 1, afs.ad: True, afs.size: afs.u32, afs.segm: es}]
+        env = dict(E)
+        env['x86_afs'] = afs
+        env['args'] = args
+        m = Obj('m')
+        m.name = c.name
+        me = Obj('self')
+        me.m = m
+        env['self'] = me
+        ev = Evaluator(env)
+        elided = False
+        try:
+            for st in strm.body:
+                if isinstance(st, ast.Assign) and isinstance(st.targets[0], ast.Name) and st.targets[0].id == 'default_ds':
+                    ev.env['default_ds'] = ev.ev(st.value)
+                if isinstance(st, ast.If) and any(isinstance(x, ast.Assign) and u(x.targets[0]) == 'args[0:2]' for x in st.body):
+                    if bool(ev.ev(st.test)):
+                        elided = True
+        except NotConst:
+            elided = False
+        out.add(0 if elided else n)
+    return out
 
 
 def from_att_total(ctx, R, arch):
